@@ -91,6 +91,31 @@ pub fn mk_graph(bytes: &[Vec<u8>]) -> (CompositionGraph, Local) {
     defs.push(Type::Interface(if1));
     if let ItemKind::Type(ty) = world_item(&g, 25, 'i', "tok") { defs.push(ty); }     // a resource: define_type must refuse it
     if let ItemKind::Type(ty) = world_item(&g, 25, 'i', "cfg") { defs.push(ty); }
+    // definitions 23..: composite types whose components are other DEFINABLE types in every position (ok and err arm, first
+    // and last field / case / element), so that the order of definitions matters for every position
+    {
+        let t = g.types_mut();
+        let mut ef = indexmap::IndexMap::new();
+        ef.insert("code".to_string(), prim(PrimitiveType::U32));
+        let erec = t.add_defined_type(DefinedType::Record(Record { fields: ef }));
+        let r2 = t.add_defined_type(DefinedType::Result { ok: Some(ValueType::Defined(rec)), err: Some(ValueType::Defined(erec)) });
+        let r3 = t.add_defined_type(DefinedType::Result { ok: Some(ValueType::Defined(en)), err: Some(ValueType::Defined(fl)) });
+        let r4 = t.add_defined_type(DefinedType::Result { ok: None, err: Some(ValueType::Defined(erec)) });
+        let tup = t.add_defined_type(DefinedType::Tuple(vec![ValueType::Defined(rec), prim(PrimitiveType::U8), ValueType::Defined(erec)]));
+        let mut f2 = indexmap::IndexMap::new();
+        f2.insert("first".to_string(), ValueType::Defined(erec));
+        f2.insert("mid".to_string(), prim(PrimitiveType::Bool));
+        f2.insert("last".to_string(), ValueType::Defined(en));
+        let rec2 = t.add_defined_type(DefinedType::Record(Record { fields: f2 }));
+        let mut c2 = indexmap::IndexMap::new();
+        c2.insert("a".to_string(), Some(ValueType::Defined(fl)));
+        c2.insert("b".to_string(), None);
+        c2.insert("c".to_string(), Some(ValueType::Defined(erec)));
+        let var2 = t.add_defined_type(DefinedType::Variant(Variant { cases: c2 }));
+        let opt2 = t.add_defined_type(DefinedType::Option(ValueType::Defined(erec)));
+        let r5 = t.add_defined_type(DefinedType::Result { ok: Some(ValueType::Defined(rec2)), err: Some(ValueType::Defined(var2)) });
+        defs.extend([d(erec), d(r2), d(r3), d(r4), d(tup), d(rec2), d(var2), d(opt2), d(r5)]);
+    }
     (g, Local { defs, kinds, pkgs })
 }
 
@@ -139,6 +164,25 @@ pub fn needs_named(types: &Types, v: ValueType) -> bool {
         },
     }
 }
+/// the record / variant / enum / flags types a value type mentions, looking through list, option, tuple, result and alias
+/// but not into another compound type (own traversal: independent of wac-types' visitor). The flag says whether the
+/// component was reached through at least one anonymous constructor below the starting point ("deep": define_type's
+/// dependency scan looks only at the direct components).
+pub fn named_components(types: &Types, v: ValueType, top: bool, anon: usize, out: &mut Vec<(DefinedTypeId, bool)>) {
+    if let ValueType::Defined(id) = v {
+        let below = if top { 0 } else { anon + 1 };
+        match &types[id] {
+            DefinedType::Record(r) => { if top { for t in r.fields.values() { named_components(types, *t, false, 0, out); } } else { out.push((id, anon > 0)); } }
+            DefinedType::Variant(x) => { if top { for t in x.cases.values().flatten() { named_components(types, *t, false, 0, out); } } else { out.push((id, anon > 0)); } }
+            DefinedType::Enum(_) | DefinedType::Flags(_) => { if !top { out.push((id, anon > 0)); } }
+            DefinedType::Alias(a) | DefinedType::List(a) | DefinedType::Option(a) | DefinedType::FixedSizeList(a, _) => named_components(types, *a, false, below, out),
+            DefinedType::Tuple(ts) => for t in ts { named_components(types, *t, false, below, out); },
+            DefinedType::Result { ok, err } => { for t in ok.iter().chain(err.iter()) { named_components(types, *t, false, below, out); } }
+            DefinedType::Stream(a) | DefinedType::Future(a) => { for t in a.iter() { named_components(types, *t, false, below, out); } }
+        }
+    }
+}
+
 pub fn has_handle(types: &Types, v: ValueType) -> bool {
     match v {
         ValueType::Primitive(_) => false,
